@@ -1819,7 +1819,7 @@ fn unescape_str(raw: &str) -> String {
             Some('r') => out.push('\r'),
             Some('t') => out.push('\t'),
             Some('u') => {
-                let mut read_unit = |chars: &mut std::iter::Peekable<std::str::Chars<'_>>| {
+                let read_unit = |chars: &mut std::iter::Peekable<std::str::Chars<'_>>| {
                     let hex: String = chars.by_ref().take(4).collect();
                     u32::from_str_radix(&hex, 16).ok()
                 };
